@@ -21,7 +21,8 @@ CLAIMED["C08"] = dict(
     text="Bounded symbolic execution of the real _CachedStorage cache code and GrpcClientCache/GrpcStorageProxy + servicer GetTrials over one "
          "shared backend: k symbolic steps (client, op, trial, state; objective values z3 reals) by two caching clients; after every read and at "
          "the end every cached view (all filters, single trial, number lookup, name, directions) is compared with the backend at that moment and "
-         "the watermark invariant is asserted. k<=3 quick, k<=4 thorough.",
+         "the watermark invariant is asserted; which state filter a client reads first is an explorer choice (an unfiltered read repairs a cache a "
+         "filtered one would expose); seeded histories with an older unfinished and a younger finished trial. k<=3 quick, k<=4 thorough.",
     note="trusted: z3; backend is a fake RDB (InMemoryStorage + RDBStorage._get_trials' filter transcribed, checked against the real RDBStorage "
          "on SQLite in every run); gRPC transport replaced by a direct call with the real protobuf messages; thread interleavings inside one client "
          "and SQL are outside",
@@ -30,8 +31,10 @@ CLAIMED["C08"] = dict(
 CLAIMED["C09"] = dict(
     text="Narrow claim: the identifier channel through which a storage can influence a sampler. The real BaseGASampler generation/parent-cache "
          "code and optuna.copy_study are executed with a symbolic trial-id offset, symbolic parent subset and z3-real values; results in trial "
-         "numbers must not depend on the offset, cached calls must equal first calls, copies must equal originals field for field. Whole seeded "
-         "runs (8 samplers x id offset / journal file / rerun / split) are compared concretely as a supplementary, explicitly non-solver obligation.",
+         "numbers must not depend on the offset, cached calls must equal first calls, copies must equal originals field for field; and the "
+         "representation-order channel: the real TPE split and group-decomposed sample_relative get the same data in every dict/set order "
+         "(values z3 reals) and must return the same result. Whole seeded runs (9 samplers x id offset / journal file / rerun / split / fresh "
+         "interpreters with other PYTHONHASHSEEDs) are compared concretely as a supplementary, explicitly non-solver obligation.",
     note="whole-run reproducibility for all objective programs is outside the solver-decided claim (given the seed nothing is left to quantify); "
          "RDB/gRPC transports are modelled only by the id offset",
     design="§3 C09")
@@ -39,7 +42,8 @@ CLAIMED["C09"] = dict(
 CLAIMED["C20"] = dict(
     text="Bounded symbolic execution over the finite product (backend x getter x 1-2 setters) of the real Study/Trial/storage getters and "
          "setters with z3-real values: objects returned by a getter are snapshotted structurally, setters run, earlier objects must equal "
-         "their snapshots; deep-copied results are mutated in every field and fresh reads must be unaffected.",
+         "their snapshots; deep-copied results (incl. study-level objects, tell(skip_if_finished), constrained best_trial) are mutated in every "
+         "field and fresh reads must be unaffected.",
     note="backends: InMemoryStorage, JournalStorage over an in-memory list backend, _CachedStorage over the fake RDB (fresh objects per read, "
          "as the real RDB builds them); cross-thread mutation mid-read is C03",
     design="§3 C20")
@@ -86,7 +90,9 @@ CLAIMED["C14"] = dict(
     level="exploration",
     text="Exhaustive bounded case split over the real BruteForceSampler/GridSampler inside the real optimize loop: program shapes enumerated "
          "up to 7 leaves; within a shape every rng.choice (all seeds), every leaf outcome (complete/fail/pruned) and every interruption point "
-         "with a fresh sampler object are explorer forks; every path asserts each combination exactly once and self-termination. All inputs are "
+         "with a fresh sampler object are explorer forks, also runs interrupted INSIDE a trial (a trial left RUNNING with its grid id / after its "
+         "first parameter), the strict stop criterion, and one transient failure before a trial's last suggest call (2 known findings); every path "
+         "asserts each combination exactly once and self-termination. All inputs are "
          "finite structural choices, so the solver has nothing numeric to decide: the deciding step is the executor's complete path enumeration.",
     note="deterministic objectives; interruptions strictly inside the run; n_jobs>1 outside; RNG stub honours RandomState.choice's contract",
     technique="exhaustive bounded path enumeration of the real code by the symbolic executor (structural forks only; z3 not exercised)",
@@ -97,7 +103,7 @@ CLAIMED["C19"] = dict(
          "RDBStorage._get_stale_trial_ids (over a fake SQL session) with z3-real heartbeat instants/clock and z3-int heartbeat_interval/"
          "grace_period; two workers run the sweep (then ask) in hand-over-hand threads, the interleaving of atomic storage calls and one "
          "worker crash at any point are explorer choices. z3 discharges: FAIL iff stale, callback at most once, at most one retry per failure "
-         "and chain <= max_retry, retry contents, others untouched.",
+         "and chain <= max_retry, retry contents (params, attrs, history, queued parameters not drawn yet), others untouched.",
     note="storage calls atomic (RDB transactions); SQL and DB clock outside; datetimes modelled as symbolic seconds with timedelta "
          "normalisation; <=3 trials, 2 workers",
     design="§3 C19")
@@ -117,7 +123,8 @@ CLAIMED["C04"] = dict(
          "set_trial_state_values(t, RUNNING) for two claimers in either order from every pre-state/history; (b) cursor invariant of the in-memory "
          "WAITING fast path vs the generic path after any suffix of queue operations; (c) 2-3 workers run the real Study.ask()/suggest in "
          "hand-over-hand threads with the interleaving of atomic storage calls chosen by the explorer and producers (enqueue/add WAITING/finish) "
-         "interleaved: no queued trial handed out twice, none skipped for good, number/user attrs kept, enqueued values (z3 reals) returned verbatim.",
+         "interleaved: no queued trial handed out twice, none skipped for good, number/user attrs kept, enqueued values (z3 reals, None, "
+         "categorical) returned verbatim although the caller changes its dicts after enqueueing.",
     note="storage calls atomic; journal workers are separate JournalStorage objects on one in-memory list backend; RDB row-level claim and real "
          "threads outside; <=3 queued trials, <=3 workers",
     design="§3 C04")
@@ -127,7 +134,8 @@ CLAIMED["C11"] = dict(
          "a concrete step per query (1..64): high adjusted to the last grid point, idempotent under reconstruction and JSON round trip, single() <=> "
          "one grid point, containment <=> on the grid, external(internal(v)) == v, deprecated classes convert equal; FloatDistribution without step "
          "over z3 reals; stepped FloatDistribution over decimal numerals n/10^6 with unbounded z3-int n through an exact Decimal shim; "
-         "CategoricalDistribution over a type lattice with symbolic numbers (True/1/1.0 collisions, NaN). One solver query set per (class, step).",
+         "CategoricalDistribution over a type lattice with symbolic numbers (True/1/1.0 collisions, NaN). One solver query set per (class, step). "
+         "Concrete companions: real constructor / JSON vs exact decimals, fine-grid membership in binary floating point.",
     note="float(int) exact below 2^53 (asserted); stepped floats restricted to arguments that are decimal numerals with <=6 fractional digits "
          "(str(float(x)) is then the numeral: validated concretely each run); json replaced by a JSON model when proxies flow; the continuous "
          "transform round trip is covered by C10's kernels, not here",
@@ -152,7 +160,8 @@ CLAIMED["C15"] = dict(
          "on NumPy object arrays of exact z3 reals: every comparison forks, so ties/duplicates/dominated points are separate solver-checked "
          "paths; hypervolume == inclusion-exclusion (polynomial identity decided by normalisation under the path's forced equalities, fallback "
          "nonlinear query), rank == repeated peeling with the O(n^2) definition, HSSP returns k distinct members; the (1-1/e) bound is decided on "
-         "integer lattices with solver-enumerated coordinates.",
+         "integer lattices with solver-enumerated coordinates; 3-D hypervolume also against the cell count on the lattice {0..3}^3 incl. boundary "
+         "points; the documented n_below contract of the rank; HSSP with arbitrary index sets.",
     note="exactness over the reals (floating-point rounding of products outside); n<=3 quick / <=4 thorough, 2-3 dimensions; (1-1/e) only on the "
          "stated lattices ({0..2}^2, {0..1}^3 / {0..2}^3)",
     design="§3 C15")
